@@ -255,5 +255,60 @@ pub fn run(r: &mut Runner) -> &'static str {
     };
     let tspace = format!("all sequences of <= {} tokens over a 14-token v1 alphabet, alone and behind 4 heads (full signature, 5-byte signature prefix, a complete TCP4 line without its ending, PROXY UNKNOWN)", k);
     r.bulk("c06.tokens", Some(&tspace), &tok_work, &judge);
+
+    // signatures damaged in TWO places by the same amount (differences that cancel in a folded or word-wise comparison made
+    // by the auto-detecting route on its own), in front of three otherwise valid headers
+    let sig_work = |shard: usize, nshards: usize, st: &mut Stats, stop: &AtomicBool| -> Option<(Vec<u8>, Fail)> {
+        let mut bases: Vec<Vec<u8>> = Vec::new();
+        let mut b = SIG.to_vec();
+        b.extend_from_slice(&[0x20, 0x00, 0, 0]);
+        bases.push(b);
+        let mut b = SIG.to_vec();
+        b.extend_from_slice(&[0x21, 0x11, 0, 19, 192, 0, 2, 1, 198, 51, 100, 7, 0xc8, 0x22, 0x01, 0xbb, 0x04, 0, 4, 0, 0, 0, 0]);
+        bases.push(b);
+        let mut b = SIG.to_vec();
+        b.extend_from_slice(&[0x21, 0x21, 0, 36]);
+        b.extend(crate::engine::fill(0x6a, 36));
+        b.extend_from_slice(b"GET / HTTP/1.1\r\n");
+        bases.push(b);
+        let mut idx = 0usize;
+        for i in 0..12usize {
+            for j in (i + 1)..12usize {
+                idx += 1;
+                if idx % nshards != shard {
+                    continue;
+                }
+                if stop.load(std::sync::atomic::Ordering::Relaxed) {
+                    return None;
+                }
+                for d in 1..=255u8 {
+                    for base in &bases {
+                        for mode in 0..3u8 {
+                            let mut x = base.clone();
+                            match mode {
+                                0 => {
+                                    x[i] ^= d;
+                                    x[j] ^= d;
+                                }
+                                1 => {
+                                    x[i] = x[i].wrapping_add(d);
+                                    x[j] = x[j].wrapping_sub(d);
+                                }
+                                _ => {
+                                    x[i] = x[i].wrapping_add(d);
+                                    x[j] = x[j].wrapping_add(d);
+                                }
+                            }
+                            if let Err(f) = judge(&x, st) {
+                                return Some((x, f));
+                            }
+                        }
+                    }
+                }
+            }
+        }
+        None
+    };
+    r.bulk("c06.signature-pairs", Some("all 66 pairs of signature positions x all 255 deltas x {xor/xor, add/sub, add/add} x 3 valid headers"), &sig_work, &judge);
     "exploration"
 }
